@@ -18,7 +18,7 @@ TRUSTED = [
     "implementation by executing every sampled history in a fresh interpreter and comparing the outcome of each step with the model "
     "evaluated in the kernel; the loader, mmap and rename atomicity themselves are trusted",
     "partial: thread schedules are exercised (2..16 Python threads, ctypes releases the GIL), not proved; the step 'no shared mutable "
-    "storage => concurrent calls behave sequentially' is trusted; absence of static storage is checked on the emitted text",
+    "storage => concurrent calls behave sequentially' is trusted; absence of static storage other than thread-local (`static __thread`) buffers is checked on the emitted text",
     "translators translate/libio.py (which library calls compile(save) and load make) and translate/wrapper.py",
 ]
 
@@ -170,12 +170,13 @@ def run(ck: Check):
         if st["wrong"]:
             ck.disagree("concurrent calls return results that differ from the sequential ones", dict(case, wrong=st["wrong"], first=st["first"]),
                         signature={"what": "threads-wrong", "same_handle": not job["mix"]})
-    # no static storage in the emitted text
+    # no storage shared between calls in the emitted text
     net = compiled.build(model_by_id(0), 32)
     text = net.get_c_code()
     ck.case({"kind": "static-scan"}, kind="static-scan")
     import re
-    if re.search(r"\bstatic\b", text) or re.search(r"^\w[\w \*]*\w+\s*(\[[^\]]*\])?\s*(=[^;]*)?;\s*$", "\n".join(
+    # `static __thread` buffers are per thread (F27) and therefore not shared by concurrent calls; any other static is
+    if re.search(r"\bstatic\b(?! __thread\b)", text) or re.search(r"^\w[\w \*]*\w+\s*(\[[^\]]*\])?\s*(=[^;]*)?;\s*$", "\n".join(
             l for l in text.splitlines() if not l.startswith(("\t", " ", "#", "}", "void")) and l.strip()), flags=re.M):
         ck.disagree("the emitted translation unit has static or file-scope storage shared by all calls", {"model": 0},
                     signature={"what": "static"})
